@@ -226,7 +226,44 @@ theorem C20_forgotten_receiver_needs_okStep :
 theorem C20_connect_raises_thread_exited (ev : LoginEv) : (connect ev).1 = true → (connect ev).2 = false := by
   cases ev <;> decide
 
+/-- **`soup.connect` and a peer that ends the session right behind its acceptance.**  With the wrapper installed in the very
+step in which the login returns (`soup.connect` as repaired), for EVERY schedule of the loop thread — the peer's close
+processed before, between or after any number of such steps — once the wrapper exists a later `close()` / `logout()`
+returns: the close callback was in place when the session closed (`closed_event` set), or the session is still open and
+`close()` closes it itself.  (`Witness.C20.C20_witness_connect_race`: with installation as a separate step this fails.) -/
+theorem C20_connect_then_close_returns (evs : List ConnEv) (hf : fixedSchedule evs = true)
+    (hi : (connRun evs).installed = true) : closeReturns (connRun evs) = true := by
+  have key : ∀ (evs : List ConnEv) (s : ConnSt), fixedSchedule evs = true →
+      (s.loggedIn = true → s.installed = true) → (s.sessionClosed = true → s.eventSet = true) →
+      let r := evs.foldl connStep s
+      (r.loggedIn = true → r.installed = true) ∧ (r.sessionClosed = true → r.eventSet = true) := by
+    intro evs
+    induction evs with
+    | nil => intro s _ h1 h2; exact ⟨h1, h2⟩
+    | cons e es ih =>
+      intro s hf h1 h2
+      simp only [fixedSchedule, List.all_cons, Bool.and_eq_true] at hf
+      obtain ⟨he, hes⟩ := hf
+      simp only [List.foldl_cons]
+      apply ih (connStep s e) (by simpa [fixedSchedule] using hes)
+      · cases e <;> simp_all [connStep]
+        split <;> simp_all
+      · cases e <;> simp_all [connStep]
+        split <;> simp_all
+  have := key evs {} hf (by simp) (by simp)
+  simp only [connRun] at hi ⊢
+  obtain ⟨_, h2⟩ := this
+  unfold closeReturns
+  rw [hi]
+  cases hc : (List.foldl connStep {} evs).sessionClosed
+  · simp
+  · simp [h2 hc]
+
 /-! ### non-vacuity: concrete maximal runs -/
+
+example : fixedSchedule [.loginAndInstall, .sessionCloses] = true ∧ (connRun [.loginAndInstall, .sessionCloses]).installed = true ∧
+    (connRun [.loginAndInstall, .sessionCloses]).eventSet = true := by decide
+
 
 /-- two threads, a blocked receive woken by close(), the closer returns, later calls get StateError -/
 example :
